@@ -851,10 +851,10 @@ func (se *session) evalTuple(exprs []string, f rt.Value) (rt.Value, error) {
 // One call of a function under a flag set in a spelling.
 
 type callResult struct {
-	refused bool   // failed with the "missing flags" error
-	entered int64  // Go function entries counted by the hook (go-direct only), -1 unknown
-	caught  bool   // the refusal was seen as an ordinary error value by the protecting construct
-	alive   bool   // the statement after the call ran
+	refused bool  // failed with the "missing flags" error
+	entered int64 // Go function entries counted by the hook (go-direct only), -1 unknown
+	caught  bool  // the refusal was seen as an ordinary error value by the protecting construct
+	alive   bool  // the statement after the call ran
 	out     *gl.Outcome
 	post    string // the "post" event
 	effects string // "" or description of effects seen although refused
